@@ -10,6 +10,7 @@ import (
 	"fmt"
 	"math/rand"
 	"os"
+	"runtime"
 	"runtime/debug"
 	"strings"
 
@@ -188,5 +189,10 @@ func (c *commonFlags) runRange(f func(run int, rng *rand.Rand)) {
 	}
 	for r := lo; r < hi; r++ {
 		f(r, rand.New(rand.NewSource(seed*1000003+int64(r))))
+		// the collector is off WITHIN a run (an address must not be reused while the acceptor's address map of that run is alive);
+		// between runs nothing of the finished run is referenced any more and the acceptor starts a fresh map at the next reset line
+		if (r-lo)%512 == 511 {
+			runtime.GC()
+		}
 	}
 }
